@@ -24,7 +24,17 @@ def _init(repo, verif, recursion):
 def _run(judge, payload, params):
     mod, fn = judge.rsplit('.', 1)
     f = getattr(importlib.import_module(mod), fn)
-    return f(payload, params)
+    try:
+        return f(payload, params)
+    except Exception as e:  # noqa: a judge must never raise; report where it did so that the case can be reproduced
+        import traceback
+        tb = traceback.format_exc()
+        for item in payload:
+            try:
+                f([item], params)
+            except Exception:  # noqa
+                raise RuntimeError('%r in judge %s on case %r\n%s' % (e, judge, str(item)[:1500], tb[-1500:]))
+        raise RuntimeError('%r in judge %s\n%s' % (e, judge, tb[-1500:]))
 
 
 class Farm:
@@ -60,12 +70,15 @@ class Farm:
 
     def _err(self, e):
         with self.lock:
-            self.errors.append(repr(e))
+            self.errors.append(str(e) if isinstance(e, RuntimeError) else repr(e))
         self.sem.release()
 
     def submit(self, payload):
         targets = self.pools if self.mode == 'all' else [self.pools[self.rr % len(self.pools)]]
         self.rr += 1
+        if self.errors:
+            from .tlc import MachineryError
+            raise MachineryError('replay worker failed: ' + self.errors[0])
         for seed, pool in targets:
             if not self.sem.acquire(timeout=900):
                 from .tlc import MachineryError
